@@ -579,3 +579,6 @@ M('hist-fix-branch-off-by-two', ['C16'], BR, "                                  
 M('hist-fix-branches-swapped', ['C16'], BR, "                                    if len(bucket_counts) > len(explicit_bounds) + 1:\n                                        bucket_counts = bucket_counts[:len(explicit_bounds) + 1]", "                                    if len(bucket_counts) < len(explicit_bounds) + 1:\n                                        bucket_counts = bucket_counts[:len(explicit_bounds) + 1]", ['C16.R4'])
 M('head-written-without-json', ['C14'], RL, "f.write(json_dumps(pos) + '\\n')", "f.write(str(pos) + '\\n')", ['C14.R8'])
 M('head-read-first-line-only', ['C14'], RL, "pos = json_loads(f.read().strip())", "pos = json_loads(f.readline()[:-2])", ['C14.R8'])
+M('callback-none-test-inverted', ['C03'], MQ, "            if frames is None:  # callback could have returned None\n                return None", "            if frames is not None:  # callback could have returned None\n                return None", ['C03.R13'])
+M('callback-evaluates-twice', ['C03'], MQ, "            if callable(frames):\n                frames = frames()\n", "            if callable(frames):\n                frames() \n                frames = frames()\n", ['C03.R13', 'C03.R2'])
+M('callback-filter-topic-always', ['C03'], MQ, "            if self.outs_filter is True:\n                frames = {**frames, '_filter':", "            if True:\n                frames = {**frames, '_filter':", ['C03.R13'])
